@@ -40,7 +40,7 @@ COOKIE = 'from django.shortcuts import render\ndef index(request, template):\n  
 def sast_project(rnd, n):
     files = {}; issues = []; hotspots = []; sarif = []; dd = []
     for i in range(n):
-        rel = f"app{i % 2}/s{i:02d}.py"; kind = i % 3
+        rel = (f"app{i % 2}/s{i:02d}.py", (f"a_top_s{i:02d}.py" if i % 2 else f"s{i:02d}_top.py"), f"app{i % 2}/deep/er/s{i:02d}.py")[(i // 3) % 3]; kind = i % 3      # top-level, nested and deeply nested files with findings: the default include patterns overlap differently on each
         if kind == 0:
             files[rel] = URL.encode()
             issues.append({"key": f"I{i}", "rule": "pythonsecurity:S5144", "status": "OPEN", "component": "proj:" + rel, "textRange": {"startLine": 7, "endLine": 7, "startOffset": 4, "endOffset": 21}})
